@@ -29,7 +29,6 @@ type follower struct {
 	mu       sync.Mutex
 	exitErr  string // "" = returned nil / exit 0 with EXIT OK
 	exitCode int
-	stopping bool // the harness asked it to stop
 
 	// in-process
 	cancel context.CancelFunc
@@ -39,9 +38,21 @@ type follower struct {
 	ptlog string
 	// poll gate (victim started with "gate"): the victim announces every poll
 	// cycle and waits for a permit; permits are granted at once unless held.
-	gmu     sync.Mutex
-	held    bool
-	pending bool
+	gmu      sync.Mutex
+	held     bool
+	pending  bool
+	permitCh chan struct{} // in-process gated follower
+}
+
+func (f *follower) grant() {
+	if f.stdin != nil {
+		_, _ = io.WriteString(f.stdin, "P\n")
+		return
+	}
+	select {
+	case f.permitCh <- struct{}{}:
+	default:
+	}
 }
 
 // onPoll is called by the reader goroutine for every announced poll cycle.
@@ -52,7 +63,7 @@ func (f *follower) onPoll() {
 		f.pending = true
 		return
 	}
-	_, _ = io.WriteString(f.stdin, "P\n")
+	f.grant()
 }
 
 // holdAtPoll blocks the follower at the start of its next poll cycle. Returns
@@ -72,7 +83,7 @@ func (f *follower) holdAtPoll(wall time.Duration) bool {
 		if f.exited() || time.Now().After(deadline) {
 			return false
 		}
-		time.Sleep(time.Millisecond)
+		time.Sleep(2 * time.Millisecond)
 	}
 }
 
@@ -82,7 +93,7 @@ func (f *follower) release() {
 	f.held = false
 	if f.pending {
 		f.pending = false
-		_, _ = io.WriteString(f.stdin, "P\n")
+		f.grant()
 	}
 }
 
@@ -101,12 +112,26 @@ func (f *follower) exitInfo() (string, int) {
 	return f.exitErr, f.exitCode
 }
 
-// startInproc runs follow mode in a goroutine of this process.
-func startInproc(rep, out string, interval time.Duration) *follower {
-	f := &follower{done: make(chan struct{})}
+// startInproc runs follow mode in a goroutine of this process. gated: every
+// poll cycle waits for a permit, like the victim process started with "gate".
+func startInproc(rep, out string, interval time.Duration, gated bool) *follower {
+	f := &follower{done: make(chan struct{}), permitCh: make(chan struct{}, 64)}
 	ctx, cancel := context.WithCancel(context.Background())
 	f.cancel = cancel
-	pc := &pollClient{ReplicaClient: file.NewReplicaClient(rep), onList: f.ps.note}
+	onList := f.ps.note
+	if gated {
+		onList = func(seek int) {
+			f.ps.note(seek)
+			if seek > 0 {
+				f.onPoll()
+				select {
+				case <-f.permitCh:
+				case <-ctx.Done():
+				}
+			}
+		}
+	}
+	pc := &pollClient{ReplicaClient: file.NewReplicaClient(rep), onList: onList}
 	r := litestream.NewReplicaWithClient(nil, pc)
 	go func() {
 		err := r.Restore(ctx, followOptions(out, interval))
@@ -197,9 +222,6 @@ func startProc(self, ptsup, mode string, n int, root, ptlog, rep, out string, ms
 // stop asks the follower to stop gracefully and waits for it. ok=false if it
 // did not end within the wall-clock limit (it is then killed).
 func (f *follower) stop(wall time.Duration) (ok bool) {
-	f.mu.Lock()
-	f.stopping = true
-	f.mu.Unlock()
 	if f.cancel != nil {
 		f.cancel()
 	}
@@ -318,7 +340,7 @@ func (f *follower) await(want, stable, stallPolls int, wall time.Duration, tick 
 		if time.Now().After(deadline) {
 			return awTimeout, last
 		}
-		time.Sleep(2 * time.Millisecond)
+		time.Sleep(4 * time.Millisecond)
 	}
 }
 
